@@ -58,12 +58,22 @@ func oracleCase(stream string, ops [][]string) (verdict string) {
 			if v := judge(s, r, c, sp, f, caseReqs(ops)); v != "" {
 				return v
 			}
+			if v := judgeAsks(s, r, f, caseReqs(ops)); v != "" {
+				return v
+			}
 		case "build":
 			if !checked {
 				valid = s.valid()
 				checked = true
 			}
 			s.apply(f)
+			if inv := envoyRejects(s.built); inv != "" && valid {
+				kind := "http"
+				if s.forTCP {
+					kind = "tcp"
+				}
+				return fmt.Sprintf("FAIL %s:envoy-rejects-config class=other %s %s", kind, strings.Join(f, " "), wire.Enc(inv))
+			}
 		default:
 			s.apply(f)
 		}
@@ -103,12 +113,83 @@ func judge(s *sut, r *request, compiled, spec bool, f []string, all []*request) 
 	return fmt.Sprintf("FAIL %s:%s class=%s compiled=%s spec=%s %s", kind, clause, classify(s, r, all), decTok(compiled), decTok(spec), strings.Join(f, " "))
 }
 
+func sameList(a, b []string) bool {
+	if len(a) != len(b) {
+		return false
+	}
+	for i := range a {
+		if a[i] != b[i] {
+			return false
+		}
+	}
+	return true
+}
+
+// judgeAsks: the CUSTOM half of the statement - the ext_authz filters the generated chain consults for the
+// request are exactly those of the providers that must be asked.
+func judgeAsks(s *sut, r *request, f []string, all []*request) string {
+	got, want := extAuthzAsked(s.built, r), customAsks(s, r)
+	if sameList(got, want) {
+		return ""
+	}
+	kind := "http"
+	if s.forTCP {
+		kind = "tcp"
+	}
+	clause := "authorizer-not-asked"
+	if len(got) > len(want) {
+		clause = "authorizer-asked-needlessly"
+	}
+	class := classify(s, r, all)
+	if class == classNames["xprov"] && !xprovCause(got, want) {
+		class = "other"
+	}
+	return fmt.Sprintf("FAIL %s:%s class=%s consulted=%s must-ask=%s %s", kind, clause, class, wire.EncList(got), wire.EncList(want), strings.Join(f, " "))
+}
+
+// xprovCause: the disagreement has exactly the shape of the known ext_authz prefix finding: every provider that
+// must be asked IS consulted, and every provider consulted in addition has a name that continues the name of
+// a provider that was rightly consulted before it into that provider's policy ids (`x` -> `x-`, `x-n`, `x-ns`).
+func xprovCause(got, want []string) bool {
+	must := map[string]bool{}
+	for _, w := range want {
+		must[w] = true
+	}
+	seen := map[string]bool{}
+	for _, g := range got {
+		seen[g] = true
+	}
+	for _, w := range want {
+		if !seen[w] {
+			return false
+		}
+	}
+	extra := 0
+	for i, g := range got {
+		if must[g] {
+			continue
+		}
+		extra++
+		ok := false
+		for _, m := range got[:i] {
+			if r := strings.TrimPrefix(g, m); must[m] && r != g && (r == "-" || r == "-n" || r == "-ns") {
+				ok = true
+			}
+		}
+		if !ok {
+			return false
+		}
+	}
+	return extra > 0
+}
+
 // classNames: loose reading (spec.go) -> finding fingerprint.
 var classNames = map[string]string{
 	"ns":  "namespace-regex-spans-slash",
 	"jwt": "request-principal-prefix-inside-issuer",
 	"hdr": "header-presence-matches-empty-value",
 	"tdp": "principal-prefix-trust-domain-rewritten",
+	"xprov": "ext-authz-enabled-by-other-provider-id-prefix",
 }
 
 // classify names the input class of a disagreement (used as the finding fingerprint). A known class is
@@ -120,7 +201,7 @@ func classify(s *sut, r *request, all []*request) string {
 	defer func() { loose = map[looseKey]bool{} }()
 	explains := func() bool {
 		for _, q := range all {
-			if specDecision(s, q) != evalFilters(s.built, q) {
+			if specDecision(s, q) != evalFilters(s.built, q) || !sameList(extAuthzAsked(s.built, q), customAsks(s, q)) {
 				return false
 			}
 		}
@@ -158,6 +239,16 @@ func classify(s *sut, r *request, all []*request) string {
 		}
 	}
 	for i := range s.policies {
+		// a CUSTOM provider whose name continues into another provider's policy ids (`x` / `x-ns`)
+		if n := s.policies[i].Spec.GetProvider().GetName(); n != "" {
+			for j := range s.policies {
+				if m := s.policies[j].Spec.GetProvider().GetName(); m != "" && m != n && strings.HasPrefix(n, m) {
+					if r := n[len(m):]; r == "-" || r == "-n" || r == "-ns" {
+						add("xprov", n)
+					}
+				}
+			}
+		}
 		for _, rule := range s.policies[i].Spec.Rules {
 			for _, f := range rule.GetFrom() {
 				if src := f.GetSource(); src != nil {
@@ -204,7 +295,7 @@ func classify(s *sut, r *request, all []*request) string {
 			continue
 		}
 		delete(loose, k)
-		needed := specDecision(s, r) != evalFilters(s.built, r)
+		needed := specDecision(s, r) != evalFilters(s.built, r) || !sameList(extAuthzAsked(s.built, r), customAsks(s, r))
 		loose[k] = true
 		if needed {
 			return classNames[k.class]
@@ -243,6 +334,9 @@ func derive(s *sut, ops [][]string) string {
 		tcp := kind != "http"
 		for _, auth := range []string{"1"} {
 			s.apply([]string{"build", kind, auth})
+			if inv := envoyRejects(s.built); inv != "" {
+				return fmt.Sprintf("FAIL %s:envoy-rejects-config class=other build %s %s %s", map[bool]string{false: "http", true: "tcp"}[tcp], kind, auth, wire.Enc(inv))
+			}
 			var lines [][]string
 			var reqs []*request
 			for i := 0; i < 400; i++ {
@@ -253,6 +347,9 @@ func derive(s *sut, ops [][]string) string {
 			for i, r := range reqs {
 				c, sp := evalFilters(s.built, r), specDecision(s, r)
 				if v := judge(s, r, c, sp, lines[i], reqs); v != "" {
+					return v + " build=" + kind
+				}
+				if v := judgeAsks(s, r, lines[i], reqs); v != "" {
 					return v + " build=" + kind
 				}
 			}
